@@ -61,10 +61,18 @@ class SimSpec(common.Spec):
             blocks = {}
             for b in case['blocks']:
                 name, kind = b['name'], b['kind']
+                skw = {}
+                if b.get('events') and kind in ('input', 'counter'):
+                    # output events of a source that its destination refuses as unknown (harmless:
+                    # the sender's event() call reports the error, the simulation goes on)
+                    skw['on_output'] = [edzed.Event(e['dest'], edzed.EventCond('nosuch', None)
+                                                    if e['etype'] == 'cond_nosuch' else 'nosuch',
+                                                    efilter=edzed.not_from_undef)     # not at start-up
+                                        for e in b['events']]
                 if kind == 'input':
-                    blocks[name] = edzed.Input(name, initdef=dec(b['init']))
+                    blocks[name] = edzed.Input(name, initdef=dec(b['init']), **skw)
                 elif kind == 'counter':
-                    blocks[name] = edzed.Counter(name, initdef=b['init'])
+                    blocks[name] = edzed.Counter(name, initdef=b['init'], **skw)
             for b in case['blocks']:
                 name, kind = b['name'], b['kind']
                 if kind in ('input', 'counter'):
@@ -168,6 +176,10 @@ class SimSpec(common.Spec):
                         kw = {} if val is None else {'value': dec(val)}
                         try:
                             edzed.ExtEvent(blocks[name], etype).send(**kw)
+                        except edzed.EdzedUnknownEvent:
+                            if circuit.error is not None:
+                                log.append(['X', 'EUnknownEvent'])
+                            # else: harmless, the output of the source has been set nevertheless
                         except Exception as err:
                             log.append(['X', common.exc_enum(err, aborted=circuit.error is not None)])
                     await drive.settle()
@@ -414,7 +426,8 @@ def gen_acyclic(rng, maxc=12, feedback=True):
                                     nfu=rng.random() < 0.3))
     # feedback into the sources themselves (may oscillate: then the run must end with the
     # instability error, which the acceptor checks as well)
-    if feedback:
+    unk = rng.random() < 0.25      # this circuit has sources with refused (unknown) output events instead
+    if feedback and not unk:
         for b in cbs:
             if rng.random() < 0.12:
                 t = rng.choice(srcs)
@@ -423,6 +436,13 @@ def gen_acyclic(rng, maxc=12, feedback=True):
                 else:
                     et = rng.choice(['put', 'cond'])
                 b['events'].append(dict(dest=t['name'], etype=et, nfu=rng.random() < 0.3))
+    # output events of the sources that their destination does not know (non-fatal errors)
+    if len(srcs) >= 2 and unk:
+        for sblk in srcs:
+            if rng.random() < 0.6:
+                others = [x for x in srcs if x is not sblk]
+                sblk.setdefault('events', []).append(
+                    dict(dest=rng.choice(others)['name'], etype=rng.choice(['nosuch', 'cond_nosuch'])))
     # bursts of external events to the sources
     bursts = []
     for _ in range(rng.randrange(1, 7)):
